@@ -1170,7 +1170,7 @@ impl<'a> CompilerState<'a> {
                                         .unwrap()
                                         .as_str()
                                         .parse::<u32>()
-                                        .unwrap(),
+                                        .map_err(|_| self.syntax_error("Bank number out of range", start))?,
                                 )
                             }
                             Rule::superchip => memory = VariableMemory::Superchip,
@@ -1947,13 +1947,14 @@ impl<'a> CompilerState<'a> {
                     inline = true;
                 }
                 Rule::bank => {
+                    let start = pair.as_span().start();
                     bank = pair
                         .into_inner()
                         .next()
                         .unwrap()
                         .as_str()
                         .parse::<u32>()
-                        .unwrap();
+                        .map_err(|_| self.syntax_error("Bank number out of range", start))?;
                     if bank != 0 && inline {
                         return Err(
                             self.syntax_error("Bank spec and inlining are incompatible", start)
